@@ -2,6 +2,7 @@
 //! op lines for the Lean model driver and the implementation's canonical answers, and
 //! evaluates each property directly on the implementation (failing-input search).
 mod alloc;
+mod c04;
 mod c07;
 mod c15;
 mod enc;
@@ -59,6 +60,7 @@ fn main() {
     match prop.as_str() {
         "C07" => c07::run(&a),
         "C15" => c15::run(&a),
+        "C04" => c04::run(&a),
         _ => {
             eprintln!("no harness for {}", prop);
             std::process::exit(2);
